@@ -90,3 +90,12 @@ Theorem C13_header_from_bytes_single :
     get_options_and_frames (write_single f) = Ok (expected_options c o s false, [f], FiEof, 1%nat).
 Proof. exact header_from_bytes_single. Qed.
 Print Assumptions C13_header_from_bytes_single.
+
+(* tables larger than 4096 are refused on both sides: when a stream is created (LookupPreset) and when a
+   header is read -- so every stream that could be created has tables the reader accepts *)
+Theorem C13_large_tables_rejected_both_sides :
+  forall (c : stream_class) (ig : integ) (o : soptions) (w : woptions) (rows : list row) (md : list (str * str)) (d : bool),
+    (4096 < so_maxn o \/ 4096 < so_maxp o \/ 4096 < so_maxd o -> stream_new c ig o = Err Conformance) /\
+    (4096 < o_maxn w \/ 4096 < o_maxp w \/ 4096 < o_maxd w -> exists e, options_from_frame {| f_rows := ROptions w :: rows; f_meta := md |} d = Err e).
+Proof. exact large_tables_rejected_both_sides. Qed.
+Print Assumptions C13_large_tables_rejected_both_sides.
